@@ -1,6 +1,6 @@
 (* GENERATED ONCE by tools/pin.py from Properties/C06.v and committed: the pinned statements. *)
 From VF.Properties Require C06.
-From VF Require Import Base Gen_Errors Lexer Response Tree Tree_proofs.
+From VF Require Import Base Gen_Errors Lexer Grammar Response Tree Tree_proofs HeaderSpec MessageSpec Message_proofs.
 Open Scope N_scope.
 
 Section C06_statements.
@@ -40,4 +40,11 @@ Goal forall fu (root leaf : tree D) s leaf' s' tok rest,
   (is_data tok = true \/ tok = TDataSeparator) ->
   unit_loop (S fu) root leaf s = Val (with_toks s' rest, Some (std_error ParameterNotAllowed)).
 Proof. apply VF.Properties.C06.C06_leftover_is_108. Qed.
+Goal forall (root : tree D) (m : msg) (d : D) (f : fmt),
+  wf_tree root -> wf_msg m = true ->
+  run root (render_msg m) d f = Val (spec_message root m d f).
+Proof. apply VF.Properties.C06.C06_message_semantics. Qed.
+Goal forall (p : hprog D) data f u rest d' f' e,
+  spec_prog p data f u = (rest, d', f', e) -> exists used, data = used ++ rest.
+Proof. apply VF.Properties.C06.C06_spec_prog_consumes_prefix. Qed.
 End C06_statements.
